@@ -22,6 +22,30 @@ class C11(SigProp):
                    "implementation only (weakref dead after del + gc.collect())",
                    "which declaration an attribute resolves to along the MRO is Python's (given to the model)"]
 
+    def exhaustive(self, tier: str):
+        """An instance is dropped and collected, then a new instance of the class is made (CPython usually gives it
+        the same address) and is the next to touch the attribute the dead one touched last: a new instance, a new
+        channel - nothing of the old one's."""
+        cases = []
+        for backend in ("asyncio", "trio"):
+            for nattr in (1, 2):
+                for subscribe in (False, True):
+                    for rep in range(3):
+                        sigs = {a: 0 for a in ["sa", "sb"][:nattr]}
+                        ops = [{"op": "access", "inst": 0, "attr": a, "evcls": 0} for a in sigs]
+                        if subscribe:
+                            ops.append({"op": "subscribe", "s": 0, "chans": [len(sigs) - 1], "filter": {"k": "all"}, "cap": 50})
+                        last = list(sigs)[-1]
+                        ops += [{"op": "access", "inst": 1, "attr": last, "evcls": 0},
+                                {"op": "dispatch", "chan": len(sigs), "cls": 0, "n": 1}]
+                        if subscribe:
+                            ops.append({"op": "leave", "s": 0})
+                        cases.append({"kind": "sig", "nevcls": 1, "evparents": [], "backend": backend,
+                                      "classes": [{"name": "O0", "base": None, "signals": sigs, "falsy": False}],
+                                      "instances": [0, 0], "copies": {}, "reborn": {"1": 0}, "ops": ops,
+                                      "origin": f"reborn:{nattr}:{subscribe}:{rep}"})
+        return cases
+
     def monitor(self, case, impl):
         fails = []
         seen: dict[tuple[int, str], str] = {}
